@@ -1,10 +1,15 @@
 import UtlsVerif.Line
 import UtlsVerif.Ticket
+import UtlsVerif.SessionCodec
 /-! Driver side of C35. The primitives are an *oracle table* carried on the line (computed by the
 harness with Go's standard library, independently of the code under test); everything else — key
-derivation slices, ticket layout, key search, length guard — is the model's. -/
+derivation slices, ticket layout, key search, length guard — is the model's. The state codec
+(`SessionCodec`) is tied on every `ticket` case (`codecTie`: the model's `encode` of the reported
+fields is the real `Bytes()`, the model's `decode` returns every field) and on `sess_codec` cases
+(`ParseSessionState` on unmodified and mutated encodings); `ticket_cfg` replays histories over
+several Configs related by `Clone` on the `KeyCfg`/`sysStep` model. -/
 namespace Drv.C35
-open Line Wire Ticket
+open Line Wire Ticket SessionCodec
 
 /-- finite-map instance of `Crypto` from the line's oracle values. -/
 def oracle (hashT : List (Bytes × Bytes)) (macT : List (Bytes × Bytes × Bytes))
@@ -29,6 +34,65 @@ def mutate (t : Bytes) (mu : String) : Option Bytes :=
   | ["grow", n] => do let n ← n.toNat?; some (t ++ List.replicate n 0)
   | ["head", n] => do let n ← n.toNat?; some (t.drop n)
   | _ => none
+
+def unhexE (s : String) : Option Bytes := if s = "e" then some [] else unhex s
+def hexE (b : Bytes) : String := if b.isEmpty then "e" else hex b
+
+/-! the SessionState fields the harness reports (`c35FieldTokens`), as a model state -/
+
+def hexEList (s : String) : Option (List Bytes) := (listOf s).mapM unhexE
+
+def certAt (ctab : List Bytes) (s : String) : Option Bytes := s.toNat?.bind fun i => ctab[i]?
+
+def parseChain (ctab : List Bytes) (s : String) : Option (List Bytes) :=
+  if s = "e" then some [] else (s.splitOn "+").mapM (certAt ctab)
+
+def parseSess (o : KV) (ctab : List Bytes) : Option Sess := do
+  let version ← o.nat "fv"
+  let typ ← o.nat "ft"
+  let suite ← o.nat "fs"
+  let createdAt ← o.nat "fc"
+  let secret ← (o.get "fsec").bind unhexE
+  let extra ← (o.get "fx").bind hexEList
+  let certs ← (listOf (o.getD "fpc" "-")).mapM (certAt ctab)
+  let ocsp ← (match o.getD "foc" "?" with
+    | "nil" => some none
+    | x => (unhexE x).map some : Option (Option Bytes))
+  let scts ← (match o.getD "fsct" "?" with
+    | "nil" => some none
+    | x => (hexEList x).map some : Option (Option (List Bytes)))
+  let chains ← (listOf (o.getD "fvc" "-")).mapM (parseChain ctab)
+  let alpn ← (o.get "fal").bind unhexE
+  let useBy ← o.nat "fub"
+  let ageAdd ← o.nat "faa"
+  some { version, isClient := typ == 2, suite, createdAt, secret, extra, ems := o.getD "fe" "?" == "1",
+         earlyData := o.getD "fd" "?" == "1", certs, ocsp, scts, chains, alpn, useBy, ageAdd }
+
+/-- first field in which two states differ (for messages). -/
+def sessDiff (a b : Sess) : String :=
+  if a.version ≠ b.version then "version" else if a.isClient ≠ b.isClient then "type"
+  else if a.suite ≠ b.suite then "suite" else if a.createdAt ≠ b.createdAt then "createdAt"
+  else if a.secret ≠ b.secret then "secret" else if a.extra ≠ b.extra then "extra"
+  else if a.ems ≠ b.ems then "ems" else if a.earlyData ≠ b.earlyData then "earlyData"
+  else if a.certs ≠ b.certs then "certs" else if a.ocsp ≠ b.ocsp then "ocsp"
+  else if a.scts ≠ b.scts then "scts" else if a.chains ≠ b.chains then "chains"
+  else if a.alpn ≠ b.alpn then "alpn" else if a.useBy ≠ b.useBy then "useBy"
+  else if a.ageAdd ≠ b.ageAdd then "ageAdd" else "none"
+
+/-- the codec tie on one state: the model's `encode` of the reported fields is the real `Bytes()`
+output, and the model's `decode` of those bytes gives every reported field back. `none` = agreement. -/
+def codecTie (o : KV) (sb : Bytes) : Option String :=
+  match (o.get "ctab").bind hexList with
+  | none => some "ctab unparsable"
+  | some ctab =>
+    match parseSess o ctab with
+    | none => some "fields unparsable"
+    | some s =>
+      let parses : Bytes → Bool := fun c => ctab.contains c
+      if encode s ≠ sb then some "encode(fields)≠Bytes()"
+      else match decode parses sb with
+        | none => some "decode(Bytes())=none"
+        | some s2 => if s2 ≠ s then some s!"decode(Bytes()) differs in {sessDiff s2 s}" else none
 
 def keyStr (k : TKey) : String := s!"{hex k.aes}:{hex k.hmac}"
 
@@ -87,13 +151,13 @@ def ticket (c : Case) : Verdict :=
         | some tm =>
           if tm ≠ t then .diff tag s!"t={hex tm}" else
           let pred := match decrypt C keysD t2 with | none => "nil" | some p => hex p
-          if pred ≠ dec then .diff tag s!"dec={pred}" else .ok tag
+          if pred ≠ dec then .diff tag s!"dec={pred}" else
+          match codecTie o sb with
+          | some m => .diff tag s!"codec: {m}"
+          | none => .ok tag
   | _, _, _, _, _, _, _, _, _, _, _ => .bad "ticket: unparsable output"
 
 /-! forged client sessions -/
-
-def unhexE (s : String) : Option Bytes := if s = "e" then some [] else unhex s
-def hexE (b : Bytes) : String := if b.isEmpty then "e" else hex b
 
 def parseSetter (s : String) : Option Setter :=
   match s.splitOn ":" with
@@ -146,8 +210,158 @@ def forgeResume (c : Case) : Verdict :=
       else if cok then .diff tag "c=err"
       else .ok tag
 
+/-! Config histories (`ticket_cfg`): the model is `sysStep` over `KeyCfg`s with the SHA-512 oracle. -/
+
+structure HSt where
+  cfgs : List KeyCfg
+  /-- per sealed ticket: (key that really sealed it — found by the harness by MAC check —, the key the
+  model says sealed it) -/
+  tickets : List (String × String)
+  clones : Nat := 0
+  setAfterClone : Bool := false
+  acc : Bool := false
+  rej : Bool := false
+
+/-- result of one step: the model's successor state and, if the step disagrees, (class, message):
+class 0 = the behaviour of EncryptTicket/DecryptTicket violates the property, 1 = the observed installed
+keys violate it, 2 = the model predicts something else (tie), 3 = unusable line. -/
+abbrev HRes := HSt × Option (Nat × String)
+
+def splitColon (s : String) : String × String :=
+  match s.splitOn ":" with
+  | [a] => (a, "")
+  | a :: rest => (a, ":".intercalate rest)
+  | [] => ("", "")
+
+def histOp (C : Crypto) (nameOf : TKey → String) (seeds : List Bytes) (st : HSt) (n : Nat) (op res : String) : HRes :=
+  let kind := (op.take 1).toString
+  let (a1, a2) := splitColon (op.drop 1).toString
+  let (r, snap) := match res.splitOn "@" with
+    | [r, sn] => (r, sn)
+    | _ => ("?", "?")
+  match a1.toNat? with
+  | none => (st, some (3, s!"op {n}: bad config index"))
+  | some ci =>
+    let names (ks : List TKey) : String := if ks.isEmpty then "-" else "+".intercalate (ks.map nameOf)
+    let snapOf (cs : List KeyCfg) : String := "/".intercalate (cs.map fun c => names c.installed)
+    -- the installed keys of every Config after the step; an earlier disagreement of the step wins
+    let finish (st' : HSt) (e : Option (Nat × String)) : HRes :=
+      match e with
+      | some _ => (st', e)
+      | none =>
+        if snapOf st'.cfgs ≠ snap then
+          (st', some (1, s!"op {n} ({op}): installed-keys-differ-from-TicketKeyFromBytes-of-the-keys-set-on-each-Config want={snapOf st'.cfgs} got={snap}"))
+        else (st', none)
+    if kind = "s" then
+      match (a2.splitOn "+").mapM (fun x => x.toNat?.bind fun i => seeds[i]?) with
+      | none => (st, some (3, s!"op {n}: bad seeds"))
+      | some bs =>
+        finish { st with cfgs := sysStep C st.cfgs (.set ci bs), setAfterClone := st.setAfterClone || st.clones > 0 } none
+    else if kind = "c" then
+      finish { st with cfgs := sysStep C st.cfgs (.clone ci), clones := st.clones + 1 } none
+    else
+      -- use / seal / open all go through c.ticketKeys(nil)
+      let cfgs' := sysStep C st.cfgs (.use ci)
+      let cur : Option (List TKey) := (st.cfgs[ci]?).bind fun c => (c.current C).2
+      match cur with
+      | none => (st, some (3, s!"op {n}: Config {ci} has automatic keys (not modelled)"))
+      | some ks =>
+        let ksn := ks.map nameOf
+        if kind = "u" then
+          finish { st with cfgs := cfgs' }
+            (if r ≠ names ks then some (2, s!"op {n} ({op}): keys in use model={names ks} got={r}") else none)
+        else if kind = "e" then
+          let want := "t" ++ ksn.headD "?"
+          finish { st with cfgs := cfgs', tickets := st.tickets ++ [((r.drop 1).toString, ksn.headD "?")] }
+            (if r ≠ want then some (2, s!"op {n} ({op}): sealing key model={want} got={r}") else none)
+        else if kind = "d" then
+          match a2.toNat?.bind fun t => st.tickets[t]? with
+          | none => (st, some (3, s!"op {n}: bad ticket index"))
+          | some (actual, modelKey) =>
+            let pred := if ksn.contains modelKey then "st" else "nil"
+            finish { st with cfgs := cfgs', acc := st.acc || r == "st", rej := st.rej || r == "nil" }
+              (if ksn.contains actual ∧ r ≠ "st" then
+                some (0, s!"op {n} ({op}): roundtrip-state-differs ticket sealed under key {actual}, which this Config was given ({names ks}): result {r}")
+              else if ¬ ksn.contains actual ∧ (r = "st" ∨ r = "ne") then
+                some (0, s!"op {n} ({op}): ticket-of-unconfigured-key-accepted sealed with {actual}, this Config was given {names ks}")
+              else if r ≠ pred then some (2, s!"op {n} ({op}): open model={pred} got={r}")
+              else none)
+        else (st, some (3, s!"op {n}: unknown op"))
+
+/-- run the whole history; all disagreements are collected (the model state always follows the model). -/
+def histRun (C : Crypto) (nameOf : TKey → String) (seeds : List Bytes) :
+    HSt → Nat → List String → List String → List (Nat × String) → HSt × List (Nat × String)
+  | st, _, [], _, es => (st, es.reverse)
+  | st, n, _ :: _, [], es => (st, ((3, s!"op {n}: no result") :: es).reverse)
+  | st, n, op :: ops, r :: rs, es =>
+    match histOp C nameOf seeds st n op r with
+    | (st', some e) => if e.1 = 3 then (st', (e :: es).reverse) else histRun C nameOf seeds st' (n + 1) ops rs (e :: es)
+    | (st', none) => histRun C nameOf seeds st' (n + 1) ops rs es
+
+def ticketCfg (c : Case) : Verdict :=
+  let o := c.output
+  if o.getD "out" "?" ≠ "ok" then .diff "harness" s!"out=ok (got {o.getD "out" "?"})" else
+  let hs := (listOf (o.getD "h" "-")).map splitColon
+  match hs.mapM (fun (a, h) => do let a ← unhex a; let h ← unhex h; pure (a, h)) with
+  | none => .bad "ticket_cfg: bad hash oracle"
+  | some hashT =>
+    let C := oracle hashT [] []
+    let seeds := hashT.map (·.1)
+    let names := ["0", "1", "2", "3", "4", "5", "L"]
+    let pd := listOf (o.getD "pd" "-")
+    let nameOf (k : TKey) : String :=
+      match (pd.zip names).find? (·.1 == keyStr k) with
+      | some (_, n) => n
+      | none => "?"
+    -- one derivation: TicketKeyFromBytes of every seed is the model's slice of its SHA-512
+    if seeds.map (fun b => keyStr (publicKeyFromBytes C b)) ≠ pd then
+      .diff "derive" s!"pd={",".intercalate (seeds.map fun b => keyStr (publicKeyFromBytes C b))}"
+    else
+    let legacy : Option Bytes := if c.input.getD "leg" "0" = "1" then seeds[6]? else none
+    let ops := listOf (c.input.getD "ops" "-")
+    let res := listOf (o.getD "r" "-")
+    let (st, errs) := histRun C nameOf seeds { cfgs := [⟨legacy, []⟩], tickets := [] } 0 ops res []
+    let shape := if st.setAfterClone then "clone+set" else if st.clones > 0 then "clone" else "single"
+    let tag := s!"{shape},{if st.acc then "acc" else ""}{if st.rej then "rej" else ""}{if legacy.isSome then ",leg" else ""}"
+    -- report the most telling disagreement: unusable line, then behaviour, then observed keys, then tie
+    match errs.find? (·.1 == 3), errs.find? (·.1 == 0), errs.find? (·.1 == 1), errs.find? (·.1 == 2) with
+    | some (_, m), _, _, _ => .bad s!"ticket_cfg: {m}"
+    | none, some (_, m), _, _ => .propFail tag m
+    | none, none, some (_, m), _ => .propFail tag m
+    | none, none, none, some (_, m) => .diff tag m
+    | none, none, none, none => .ok tag
+
+/-! `ParseSessionState` on encodings and mutated encodings (`sess_codec`) against the model's `decode`. -/
+
+def sessCodec (c : Case) : Verdict :=
+  let o := c.output
+  if o.getD "out" "?" ≠ "ok" then .diff "harness" s!"out=ok (got {o.getD "out" "?"})" else
+  match o.bytes "mb", (o.get "ctab").bind hexList with
+  | some mb, some ctab =>
+    let parses : Bytes → Bool := fun x => ctab.contains x
+    let mutClass := ((c.input.getD "mut" "none").splitOn ":").headD "?"
+    let res := o.getD "res" "?"
+    let tag := s!"{c.input.getD "kind" "?"},{mutClass},{res}"
+    -- the property itself on an unmodified encoding: ParseSessionState(s.Bytes()) = s, field by field
+    if mutClass = "none" ∧ (res ≠ "ok" ∨ o.getD "feq" "?" ≠ "1") then .propFail tag "roundtrip-state-differs(ParseSessionState∘Bytes)"
+    else
+    match decode parses mb, res with
+    | none, "err" => .ok tag
+    | none, _ => .diff tag "decode=none"
+    | some _, "err" => .diff tag "decode=some (implementation rejects)"
+    | some s, _ =>
+      match parseSess o ctab with
+      | none => .bad "sess_codec: fields unparsable"
+      | some f =>
+        if s ≠ f then .diff tag s!"decode differs from ParseSessionState in {sessDiff s f}"
+        -- an unmodified encoding must parse back to a state that re-encodes to the same bytes
+        else if mutClass = "none" ∧ encode s ≠ mb then .propFail tag "roundtrip-state-differs(re-encoding)"
+        else .ok tag
+  | _, _ => .bad "sess_codec: unparsable output"
+
 /-- families served by this module (collected by the generated `DrvAll`). -/
 def families : List (String × (Case → Verdict)) :=
-  [("ticket", ticket), ("forge_set", forgeSet), ("forge_resume", forgeResume)]
+  [("ticket", ticket), ("forge_set", forgeSet), ("forge_resume", forgeResume),
+   ("ticket_cfg", ticketCfg), ("sess_codec", sessCodec)]
 
 end Drv.C35
